@@ -116,11 +116,11 @@ void extend(std::vector<Hdr>& chain, const Hdr& start, size_t n, uint64_t salt, 
         memcpy(x.h.hashMerkleRoot.begin() + 8, &salt, 8);
         uint32_t bits = prev.h.nBits;
         if (x.height % INTERVAL == 0 && vary_difficulty) {
-            // required-style retarget with a generated timespan in [T/4, 4T] = [1, 16]; keep the target within [limit/64, limit] (cheap grinding)
+            // required-style retarget with a generated timespan in [T/4, 4T] = [1, 16]; keep the target within [limit/8, limit] (cheap grinding)
             int64_t ts = s.chance(96) ? s.pick<int64_t>({1, 2, 4, 8, 16, 3, 5}) : 4;
             cpp_int t = ref_target(bits) * ts / T_SPAN;
             if (t > LIMIT) t = LIMIT;
-            if (t < LIMIT / 64) t = ref_target(bits);
+            if (t < LIMIT / 8) t = ref_target(bits);
             bits = ref_compact(t);
         }
         x.h.nBits = bits;
@@ -146,13 +146,13 @@ VERIF_TARGET(c33_headerssync, init_c33, 48, 400,
     // --- parameters
     HeadersSyncParams hp;
     hp.commitment_period = s.range<size_t>(1, 8);
-    hp.redownload_buffer_size = s.chance(128) ? hp.commitment_period * s.range<size_t>(40, 50) : s.range<size_t>(8, 400);
+    { unsigned bm = s.range<unsigned>(0, 3); hp.redownload_buffer_size = bm <= 1 ? hp.commitment_period * s.range<size_t>(40, 50) : bm == 2 ? s.range<size_t>(8, 40) : s.range<size_t>(8, 400); }
     if (hp.redownload_buffer_size > 400) hp.redownload_buffer_size = 400;
     unsigned rng_shift = s.range<unsigned>(0, 7);
     for (unsigned k = 0; k < rng_shift; ++k) (void)FastRandomContext().rand64(); // moves the deterministic global RNG: varies commit offset and hasher salt
     int64_t start_height = s.chance(128) ? 0 : s.range<int64_t>(1, 100000);
     cpp_int start_work = s.chance(128) ? cpp_int(0) : cpp_int(s.range<uint64_t>(1, uint64_t{1} << 40));
-    size_t len1 = s.chance(200) ? s.range<size_t>(0, 160) : s.range<size_t>(160, 600); // first-pass chain length
+    size_t len1 = s.chance(170) ? s.range<size_t>(0, 160) : s.range<size_t>(160, 600); // first-pass chain length
     bool vary = s.chance(160);
     unsigned p1_behaviour = s.range<unsigned>(0, 7); // 0..4 honest, 5 non-connecting batch, 6 impermissible nBits, 7 stops with a partial batch
     unsigned p2_behaviour = s.range<unsigned>(0, 9); // 0..2 honest, 3..6 switch chain at s, 7 non-connecting, 8 impermissible nBits, 9 partial batch early
@@ -171,7 +171,7 @@ VERIF_TARGET(c33_headerssync, init_c33, 48, 400,
     std::vector<Hdr> A;
     extend(A, start, len1, /*salt=*/1, s, vary);
     // minimum work: reached after `k_min` headers of A (k_min may exceed len1: never reached)
-    size_t k_min = s.chance(200) ? s.range<size_t>(0, len1 + 2) : len1 + s.range<size_t>(3, 50);
+    size_t k_min = s.chance(110) ? len1 - std::min<size_t>(len1, s.range<size_t>(0, 3)) : s.chance(200) ? s.range<size_t>(0, len1 + 2) : len1 + s.range<size_t>(3, 50);
     cpp_int min_work = start_work;
     for (size_t i = 0; i < k_min; ++i) min_work += i < A.size() ? ref_proof(A[i].h.nBits) : ref_proof(A.empty() ? start.h.nBits : A.back().h.nBits);
     if (s.chance(64) && min_work > 0) min_work -= 1; // just below a boundary
